@@ -269,6 +269,25 @@ fn run_q(c: &Case, t: &[&str]) -> String {
                     .unwrap_or("none".into()),
             }
         }
+        "annot" => {
+            // annot <tid> <line1> <end_char>: string_utils::parameter_has_annotation on the text's lines
+            let txt = c.text(t[1]);
+            let lines: Vec<&str> = txt.lines().collect();
+            format!(
+                "{}",
+                FixtureDatabase::verif_parameter_has_annotation(&lines, t[2].parse().unwrap(), t[3].parse().unwrap()) as u8
+            )
+        }
+        "docfmt" => {
+            // docfmt <tid>: string_utils::format_docstring on the whole text
+            hex(FixtureDatabase::verif_format_docstring(c.text(t[1])).as_bytes())
+        }
+        "fnpos" => {
+            // fnpos <tid> <line1> <namehex>
+            let name = String::from_utf8_lossy(&unhex(t[3])).to_string();
+            let (a, b) = FixtureDatabase::verif_find_function_name_position(&c.text(t[1]), t[2].parse().unwrap(), &name);
+            format!("{}-{}", a, b)
+        }
         "defs" => {
             // full records of one file, in registration order within each name, sorted overall
             let p = c.abs(t[1]);
@@ -363,13 +382,13 @@ fn run_op(c: &mut Case, t: &[&str]) -> String {
             let p = c.abs(t[1]);
             let txt = c.text(t[2]);
             c.db.analyze_file(p, &txt);
-            "ok".into()
+            format!("ok parsed={}", parses(&txt) as u8)
         }
         "fresh" => {
             let p = c.abs(t[1]);
             let txt = c.text(t[2]);
             c.db.verif_analyze_file_fresh(p, &txt);
-            "ok".into()
+            format!("ok parsed={}", parses(&txt) as u8)
         }
         "close" => {
             let p = c.abs(t[1]);
@@ -448,6 +467,12 @@ fn observed_order(c: &Case) -> String {
         }
     }
     if out.is_empty() { "-".into() } else { out.join(",") }
+}
+
+/// does the implementation's parser accept the text? (reported so that texts on which CPython and
+/// rustpython disagree are counted as parser divergence, not as model disagreement)
+fn parses(txt: &str) -> bool {
+    rustpython_parser::parse(txt, rustpython_parser::Mode::Module, "").is_ok()
 }
 
 fn write_file(p: &Path, content: &[u8]) {
@@ -542,6 +567,8 @@ fn main() {
                         }
                     };
                     let _ = writeln!(out, "{} {} {}", name, idx, ans);
+                    // flushed per answer: the caller's watchdog tells a hung operation from a slow run
+                    let _ = out.flush();
                 }
             }
             _ => {}
